@@ -70,6 +70,9 @@ pub(crate) use builder::Builder;
 mod client;
 #[cfg(test)]
 mod tests;
+#[cfg(all(test, feature = "verif"))]
+#[path = "/verif/harness/conductor/executor.rs"]
+mod verif;
 pub(super) use client::Client;
 
 type CelestiaHeight = u64;
